@@ -290,6 +290,13 @@ func (c15) Eval(c *Chooser, env *Env) *Outcome {
 		}
 	}
 	o.World = w
+	if kern.RaceLane {
+		r := RunLint(w, c, RunOpts{KeepTrace: env.KeepTrace})
+		o.addRun(r.K)
+		o.Nontrivial = r.K.MaxRunnable >= 2
+		o.Sig = w.Hash() ^ r.K.TraceHash
+		return o
+	}
 	// U: the unfiltered run - same files, no -ignore, config without paths, from the repository root
 	uArgs := []string{"-format", "{{json .}}", "-no-color", "-shellcheck=", "-pyflakes="}
 	for _, f := range lintFiles {
